@@ -115,13 +115,13 @@ def chains_and_guards(ctx) -> None:
             ctx.check([core.src(a) for a in call.args] == ['index', 'subscription'], 'C11.chain', fn, 'index and subscription are forwarded unchanged', sup[0], key=f'{cname}:args')
         if cname == 'Worker':
             raises = [r for r in core.walk_local(fn.node) if isinstance(r, ast.Raise)]
-            gate = [next(a for a in core.ancestors(r) if isinstance(a, ast.If)) for r in raises if any(core.src(t) == 'self.trained' and pol for t, pol in cfg.guards(r, fn.node, siblings=False))]
+            gate = [next(a for a in core.ancestors(r) if isinstance(a, ast.If)) for r in raises if [(core.src(t), pol) for t, pol in cfg.guards(r, fn.node, siblings=False)] == [('self.trained', True)]]
             ctx.check(bool(gate) and bool(sup) and all(graph.dominates(g, sup[0]) for g in gate), 'C11.guard', fn, 'a trained worker publishes nothing: the trained raise dominates the upstream publish', fn.node, key='Worker._publish:trained')
     np = prog.func(f'{node.ref}._publish')
     g = cfg.CFG(np.node)
     adds = [s for s in g.statements() if any(isinstance(c.func, ast.Attribute) and c.func.attr == 'add' and '_output' in core.src(c.func.value) for c in cfg.header_calls(s))]
     raises = [r for r in core.walk_local(np.node) if isinstance(r, ast.Raise)]
-    selfloop = [next(a for a in core.ancestors(r) if isinstance(a, ast.If)) for r in raises if any(core.src(t) in ('self is subscription.node', 'subscription.node is self') and pol for t, pol in cfg.guards(r, np.node, siblings=False))]
+    selfloop = [next(a for a in core.ancestors(r) if isinstance(a, ast.If)) for r in raises if [(core.src(t), pol) for t, pol in cfg.guards(r, np.node, siblings=False)] in ([('self is subscription.node', True)], [('subscription.node is self', True)])]
     ctx.check(len(adds) == 1 and bool(selfloop) and all(g.dominates(s, adds[0]) for s in selfloop), 'C11.guard', np, 'no node feeds itself: the self-subscription raise dominates the port write', np.node, key='Node._publish:selfloop')
     if adds:
         call = next(c for c in cfg.header_calls(adds[0]) if isinstance(c.func, ast.Attribute) and c.func.attr == 'add')
@@ -133,7 +133,11 @@ def chains_and_guards(ctx) -> None:
     checks = [next(a for a in core.ancestors(r) if isinstance(a, ast.If)) for r in core.walk_local(sn.node) if isinstance(r, ast.Raise)]
     ctx.floor('C11.subscription-checks', len(checks), 3)
     ctx.check(len(regs) == 1 and all(g.dominates(c, regs[0]) for c in checks), 'C11.guard', sn, f'all {len(checks)} exclusivity checks dominate the registration write', sn.node, key='Subscription:checks-first')
-    conds = [core.src(c.test) for c in checks]
+    conds = []
+    for r in [r for r in core.walk_local(sn.node) if isinstance(r, ast.Raise)]:
+        gs = cfg.guards(r, sn.node, siblings=False)
+        if len(gs) == 1 and gs[0][1]:  # raised when the (single) condition holds
+            conds.append(core.src(gs[0][0]))
     want = {
         'double': any('port in cls._PORTS[subscriber]' in c for c in conds),
         'apply/train': any('isinstance(port, Apply) ^' in c for c in conds),
@@ -148,10 +152,10 @@ def chains_and_guards(ctx) -> None:
     pubs = [s for s in g.statements() if any(isinstance(c.func, ast.Attribute) and c.func.attr == 'publish' for c in cfg.header_calls(s))]
     gates = {}
     for r in [r for r in core.walk_local(tr.node) if isinstance(r, ast.Raise)]:
-        for t, pol in cfg.guards(r, tr.node, siblings=False):
-            if pol:
-                gates[core.src(t)] = next(a for a in core.ancestors(r) if isinstance(a, ast.If))
-    ok = len(pubs) == 2 and 'not self.stateful' in gates and any('trained' in k and '_group' in k for k in gates) and all(g.dominates(x, p) for x in gates.values() for p in pubs)
+        gs = cfg.guards(r, tr.node, siblings=False)
+        if len(gs) == 1 and gs[0][1]:
+            gates[core.src(gs[0][0])] = next(a for a in core.ancestors(r) if isinstance(a, ast.If))
+    ok = len(pubs) == 2 and 'not self.stateful' in gates and any(k.replace(' ', '') in ('any((f.trainedforfinself._group))', 'any(f.trainedforfinself._group)') for k in gates) and all(g.dominates(x, p) for x in gates.values() for p in pubs)
     ctx.check(ok, 'C11.guard', tr, 'stateless and fork-collision refusals dominate both train publishes (a group has at most one trained member)', tr.node, key='Worker.train:guards')
     if len(pubs) == 2:
         texts = [core.src(p) for p in pubs]
@@ -256,12 +260,13 @@ def gate(ctx) -> None:
         ctx.check(len(defs) == 1 and core.src(defs[0].value) == f'composed.{seg}.extend()', 'C11.gate', new, f'`{seg}` is the traced {seg} segment of the composed trunk', defs[0] if defs else new.node, key=f'gate:{seg}:def')
     val = prog.cls(f'{CLEAN}:Validator')
     vn, vs = prog.func(f'{val.ref}.visit_node'), prog.func(f'{val.ref}.visit_segment')
-    ctx.check('isinstance(node, atomic.Future)' in core.src(vn.node) and 'self._futures.add(node)' in core.src(vn.node), 'C11.gate', vn, 'placeholders met during traversal are collected', vn.node, key='validator:collect')
-    conds = [core.src(t) for r in core.walk_local(vs.node) if isinstance(r, ast.Raise) for t, pol in cfg.guards(r, vs.node, siblings=False) if pol]
-    ctx.check(conds == ['self._futures'], 'C11.gate', vs, 'a segment still containing placeholders is refused', vs.node, key='validator:raise')
+    adds = [c for c in core.calls_in(vn.node) if core.src(c.func) == 'self._futures.add']
+    ctx.check(len(adds) == 1 and [(core.src(t), pol) for t, pol in cfg.guards(adds[0], vn.node, siblings=False)] == [('isinstance(node, atomic.Future)', True)], 'C11.gate', vn, 'placeholders met during traversal are collected', vn.node, key='validator:collect')
+    conds = [(core.src(t), pol) for r in core.walk_local(vs.node) if isinstance(r, ast.Raise) for t, pol in cfg.guards(r, vs.node, siblings=False)]
+    ctx.check(conds == [('self._futures', True)], 'C11.gate', vs, 'a segment still containing placeholders is refused', vs.node, key='validator:raise')
     sub = prog.func(f'{SPAN}:Traversal.subscribers')
-    conds = [core.src(t) for r in core.walk_local(sub.node) if isinstance(r, ast.Raise) for t, pol in cfg.guards(r, sub.node, siblings=False) if pol]
-    ctx.check('node in self.members' in conds and 'Cyclic' in core.src(sub.node), 'C11.gate', sub, 'a subscriber that is already on the traversal path is a cycle', sub.node, key='traversal:cyclic')
+    conds = [(core.src(t), pol) for r in core.walk_local(sub.node) if isinstance(r, ast.Raise) for t, pol in cfg.guards(r, sub.node, siblings=False) if isinstance(core.parent(r), ast.If) and core.parent(r).test is t]
+    ctx.check(('node in self.members', True) in conds and 'Cyclic' in core.src(sub.node), 'C11.gate', sub, 'a subscriber that is already on the traversal path is a cycle', sub.node, key='traversal:cyclic')
     tn = prog.func(f'{SPAN}:Traversal.__new__')
     ctx.check('frozenset(members | {pivot})' in core.src(tn.node), 'C11.gate', tn, 'the traversal path accumulates every visited pivot', tn.node, key='traversal:members')
 
